@@ -221,6 +221,21 @@ impl Decoder {
     }
 }
 
+#[cfg(trusttunnel_verif)]
+impl Decoder {
+    /// (state name, state argument, buffered bytes)
+    pub(crate) fn verif_state(&self) -> (&'static str, usize, usize) {
+        let (name, arg) = match self.state {
+            RecvState::Length => ("Length", 0),
+            RecvState::FixedHeader => ("FixedHeader", 0),
+            RecvState::AppName(n) => ("AppName", n),
+            RecvState::Payload(n) => ("Payload", n),
+            RecvState::Dropping(n) => ("Dropping", n),
+        };
+        (name, arg, self.buffer.len())
+    }
+}
+
 impl http_datagram_codec::Decoder for Decoder {
     type Datagram = downstream::UdpDatagram;
 
